@@ -791,6 +791,12 @@ impl<F: Float, A: Data<Elem = F>> CostFunction for LogisticRegressionProblem1<'_
     fn cost(&self, p: &Self::Param) -> std::result::Result<Self::Output, argmin::core::Error> {
         let w = p.as_array();
         let cost = logistic_loss(self.x, &self.target, self.alpha, w);
+        if cost.is_nan() {
+            // a NaN cost makes argmin's line search loop forever
+            return Err(argmin::core::Error::msg(
+                "logistic loss is NaN: the parameters are no longer finite",
+            ));
+        }
         Ok(cost)
     }
 }
@@ -815,6 +821,12 @@ impl<F: Float, A: Data<Elem = F>> CostFunction for LogisticRegressionProblem2<'_
     fn cost(&self, p: &Self::Param) -> std::result::Result<Self::Output, argmin::core::Error> {
         let w = p.as_array();
         let cost = multi_logistic_loss(self.x, &self.target, self.alpha, w);
+        if cost.is_nan() {
+            // a NaN cost makes argmin's line search loop forever
+            return Err(argmin::core::Error::msg(
+                "multinomial logistic loss is NaN: the parameters are no longer finite",
+            ));
+        }
         Ok(cost)
     }
 }
